@@ -53,7 +53,7 @@ class RuleOrdering:
                 if rule.right_terms[1] != rule.left_term:
                     di_graph.add_edge(rule.right_terms[1], rule.left_term)
             if rule.is_production():
-                f_rules = self.conso_rules.setdefault(
+                f_rules = self.conso_rules.get(
                     rule.production, [])
                 for f_rule in f_rules:
                     if f_rule.right != rule.left_term:
